@@ -238,7 +238,7 @@ def rphys(r, maxcols=4, maxslices=3):
 
 # ------------------------------------------------------------------ metadata histories
 
-def rhistory(r, length, small=False):
+def rhistory(r, length, small=False, as_ops=False):
     names = [b"a", b"b", b"c"] if small else [b"a", b"b", b"Name", b"DataType", b"a\0x", b"", b"long" * 40]
     toks = ["md", "new 0", "new 1"]
     regs = [0, 1, 2]
@@ -295,6 +295,8 @@ def rhistory(r, length, small=False):
             toks.append("dump %d" % r.choice(regs))
     for a in regs:
         toks.append("dump %d" % a)
+    if as_ops:
+        return toks
     return " ".join(toks)
 
 
